@@ -155,6 +155,12 @@ def search(ctx):
                     f()
                 except NotImplementedError:
                     continue
+                except RuntimeError as e:
+                    if "differentiable" in str(e):      # documented: a block matrix is differentiable only if all its blocks are
+                        continue
+                    bad += 1
+                    ctx.fail(f"op:raises:{cls}:{name}", f"{cls}: {name} raised RuntimeError: {str(e)[:80]}", {"kind": kind, "n": n, "op": name, "seed": seed})
+                    continue
                 except Exception as e:  # noqa: BLE001
                     bad += 1
                     ctx.fail(f"op:raises:{cls}:{name}", f"{cls}: {name} raised {type(e).__name__}: {str(e)[:80]}", {"kind": kind, "n": n, "op": name, "seed": seed})
